@@ -195,7 +195,7 @@ def harness_pass(pid, prop, binpath, workdir, label, seed, tier, budget, replay=
     os.makedirs(out)
     cmd = [binpath, "-out", out, "-seed", str(seed), "-tier", tier, "-budget", str(budget)]
     if replay:
-        cmd += ["-replay", replay]
+        cmd += ["-replay", os.path.abspath(replay)]
     t0 = time.time()
     rc, hout = run(cmd, cwd=out, timeout=timeout, env={"VERIF_REPO": REPO})
     open(os.path.join(out, "harness.log"), "w").write(hout)
